@@ -115,7 +115,7 @@ def save_via(tg, fmt, blanks, mn, mx, thr):
         import atexit
         import shutil
         atexit.register(shutil.rmtree, _SAVE_DIR, True)
-    fn = os.path.join(_SAVE_DIR, "%d.out" % os.getpid())
+    fn = core.fname(os.path.join(_SAVE_DIR, "%d.out" % os.getpid()))
     # the path holds an earlier annotation; a save that refuses (raises) must leave it as it was
     earlier = 'File type = "ooTextFile"\nObject class = "TextGrid"\n\n0\n1\n<absent>\n'
     with open(fn, "w", encoding="utf-8", newline="") as fh:
